@@ -17,7 +17,7 @@ import (
 // again and changes nothing (prewrite over the transaction's own lock).
 func ZZ_C12_idem_prewrite() {
 	w := zzNewWorld()
-	k := w.keyAndPrefix()
+	k := w.keyAndPrefixDeep(false)
 	t := w.pickTxn("txn")
 	zzAssume(!w.isDone(k, t))
 	a := w.drawPrewrite("pw")
@@ -36,7 +36,7 @@ func ZZ_C12_idem_prewrite() {
 // nothing.
 func ZZ_C12_idem_commit() {
 	w := zzNewWorld()
-	k := w.keyAndPrefix()
+	k := w.keyAndPrefixDeep(false)
 	t := w.pickTxn("txn")
 	keys := [][]byte{zzKeys[k]}
 	if w.store.Commit(keys, t.start, t.commit) != nil {
@@ -130,7 +130,7 @@ func ZZ_C12_empty_noops() {
 // its start ts; a lock's transaction has no write record on the key.
 func ZZ_C12_invariants() {
 	w := zzNewWorld()
-	k := w.keyAndPrefix()
+	k := w.keyAndPrefixDeep(false)
 	r := w.raw(zzKeys[k])
 	for i := range r.vals {
 		v := r.vals[i]
@@ -272,7 +272,7 @@ func zzLockSameExcept(a, b *mvccLock, ttl, minC bool) bool {
 // lock of the transaction is not there.
 func ZZ_C12_heartbeat() {
 	w := zzNewWorld()
-	k := w.keyAndPrefix()
+	k := w.keyAndPrefixDeep(false)
 	t := w.pickTxn("txn")
 	key := zzKeys[k]
 	r0 := w.raw(key)
@@ -330,7 +330,7 @@ func ZZ_C12_min_commit_push() {
 // at the commit ts.
 func ZZ_C12_commit_min_commit_ts() {
 	w := zzNewWorld()
-	k := w.keyAndPrefix()
+	k := w.keyAndPrefixDeep(false)
 	t := w.pickTxn("txn")
 	key := zzKeys[k]
 	r0 := w.raw(key)
@@ -443,7 +443,7 @@ func zzSI(n string) (kvrpcpb.IsolationLevel, bool) {
 // the blocking lock.
 func ZZ_C12_get() {
 	w := zzNewWorld()
-	k := w.keyAndPrefixOps(true)
+	k := w.keyAndPrefixDeep(true)
 	key := zzKeys[k]
 	ts := zzU64("ts")
 	zzAssume(ts < math.MaxUint64)
